@@ -353,9 +353,14 @@ impl Database {
         drop(file_manager_guard);
 
         if self.shared.group_commit_queue.is_enabled() {
-            match self.shared.group_commit_queue.submit_and_wait(payload) {
-                Ok(_batch_id) => {
-                    if let Some(pending_commits) = self.shared.group_commit_queue.take_pending() {
+            match self.shared.group_commit_queue.submit_and_wait_leader(payload) {
+                Ok((_batch_id, is_leader)) => {
+                    let pending_commits = if is_leader {
+                        self.shared.group_commit_queue.take_pending()
+                    } else {
+                        None
+                    };
+                    if let Some(pending_commits) = pending_commits {
                         let result = self.execute_group_wal_flush(&pending_commits);
                         match &result {
                             Ok(()) => self
